@@ -179,8 +179,14 @@ func c01Child(ctx *runCtx, spec string) {
 	for h := 0; h < cfg.Hist; h++ {
 		dmap := fmt.Sprintf("c01-%d-%d", cfg.Seed, h)
 		keys := []string{"k0", "k1", "k2"}
+		fp := c.Fingerprint()
 		ops, netErrs := runKVHistory(c, dmap, keys, 12, 28, kinds, vs, cfg.Seed*100+int64(h))
 		ctx.rep.Eval(1)
+		if c.Fingerprint() != fp {
+			ctx.rep.Inconclusive(fmt.Sprintf("%s history %d: membership/routing changed during the history (not a stable cluster)", spec, h))
+			_ = c.WaitStable(30 * time.Second)
+			continue
+		}
 		for _, o := range ops {
 			ctx.rep.Count("ops_"+o.Op+"_via_"+o.Path, 1)
 		}
